@@ -58,15 +58,15 @@ func checkC06(w *World, r *Report) {
 	r.Decides = "C06 is decided in its structural part only: (a) the range arithmetic of the stream handler: first index = requested index, last = applied+1 from a linearizable read, 'leader behind' exactly under applied+1 < requested, the next first index is min(last returned index+1, last), the empty answer carries the applied index; (b) the three-way decision of the log read: empty under rLast+1 == first, 'behind' only under rLast < first and not the former, 'ahead' only under first < rFirst, entries only under none of them, and the handler maps the two errors to the two error responses; (c) one command per entry per iteration, in slice order, a non-encoded entry becomes a no-op command (never skipped), the labels are the entry's own index; (d) cache hygiene: only the cache's own append path writes its buffer, every put from the cached reader is guarded by one of: cache empty / served cached run non-empty / first new index-1 == largest cached, and log compaction and node deletion events of this replica invalidate the shard's cache; (e) a size cut keeps at least one entry."
 	r.NotDecided = []string{"that cached and uncached readers return the same entries for every cache state (value-level reasoning over index arithmetic and slices - the central clause of the cache sentence)", "density of what dragonboat's log reader returns", "that the cache lookup requests the missing run from largest+1 (its contract)"}
 	r.Assume = []string{"ReadonlyLogReader.Entries(first,last,max) returns consecutive entries starting at first", "the applied index only grows"}
-	c06Handler(w, r)
-	c06ReadLog(w, r)
-	c06Dense(w, r)
+	c06Handler(w, r, "C06.a", "a-range-arithmetic")
+	c06ReadLog(w, r, "C06.b", "b-three-way-decision")
+	c06Dense(w, r, "C06.c", "c-dense-ordered-labelled")
 	c06Cache(w, r)
 	c06SizeCut(w, r)
 }
 
-func c06Handler(w *World, r *Report) {
-	ob := r.Ob("C06.a", "a-range-arithmetic", "stream handler: LogRange.FirstIndex is initialised from the request's LeaderIndex and LastIndex from (applied index read with linearizable=true)+1; the pre-loop 'leader behind' answer is sent only under request.LeaderIndex - applied >= 2 and the log is queried only under its negation; inside the loop FirstIndex is advanced to min(last returned entry's Index+1, LastIndex); the empty answer's LeaderIndex is an applied index read", "any other arithmetic repeats or skips entries at batch boundaries or answers 'behind' to an up-to-date follower")
+func c06Handler(w *World, r *Report, id, slug string) {
+	ob := r.Ob(id, slug, "stream handler: LogRange.FirstIndex is initialised from the request's LeaderIndex and LastIndex from (applied index read with linearizable=true)+1; the pre-loop 'leader behind' answer is sent only under request.LeaderIndex - applied >= 2 and the log is queried only under its negation; inside the loop FirstIndex is advanced to min(last returned entry's Index+1, LastIndex); the empty answer's LeaderIndex is an applied index read", "any other arithmetic repeats or skips entries at batch boundaries or answers 'behind' to an up-to-date follower")
 	fn := w.Func("regattaserver", "LogServer.Replicate")
 	if fn == nil {
 		ob.Undecided("anchor", "LogServer.Replicate not found")
@@ -174,8 +174,8 @@ func c06Handler(w *World, r *Report) {
 	ob.NeedFloor(6)
 }
 
-func c06ReadLog(w *World, r *Report) {
-	ob := r.Ob("C06.b", "b-three-way-decision", "log read: with (rFirst, rLast) = reader.GetRange(): `return nil, nil` only under first - rLast == 1; ErrLogBehind only under first - rLast >= 1 and first - rLast != 1; ErrLogAhead only under first - rFirst <= -1; reader.Entries only under first - rLast <= 0 and first - rFirst >= 0; the handler answers errors.Is(err, ErrLogBehind) with the 'leader behind' response and ErrLogAhead with 'use snapshot'", "a shifted comparison turns 'up to date' into 'behind', serves compacted indices, or answers 'use snapshot' to a follower that could be served from the log")
+func c06ReadLog(w *World, r *Report, id, slug string) {
+	ob := r.Ob(id, slug, "log read: with (rFirst, rLast) = reader.GetRange(): `return nil, nil` only under first - rLast == 1; ErrLogBehind only under first - rLast >= 1 and first - rLast != 1; ErrLogAhead only under first - rFirst <= -1; reader.Entries only under first - rLast <= 0 and first - rFirst >= 0; the handler answers errors.Is(err, ErrLogBehind) with the 'leader behind' response and ErrLogAhead with 'use snapshot'", "a shifted comparison turns 'up to date' into 'behind', serves compacted indices, or answers 'use snapshot' to a follower that could be served from the log")
 	fn := w.Func("storage/logreader", "readLog")
 	if fn == nil {
 		ob.Undecided("anchor", "storage/logreader.readLog not found")
@@ -305,8 +305,8 @@ func c06ReadLog(w *World, r *Report) {
 	ob.NeedFloor(6)
 }
 
-func c06Dense(w *World, r *Report) {
-	ob := r.Ob("C06.c", "c-dense-ordered-labelled", "handler: in the loop over the returned entries every iteration appends exactly one ReplicateCommand (or returns an error), whose LeaderIndex is the entry's Index; entry conversion: every success return hands back a command, the non-encoded edge sets the no-op type instead of decoding, the command's LeaderIndex points at the entry's Index", "a skipped entry is a gap in the follower's log; a wrong label makes the follower record a wrong leader index")
+func c06Dense(w *World, r *Report, id, slug string) {
+	ob := r.Ob(id, slug, "handler: in the loop over the returned entries every iteration appends exactly one ReplicateCommand (or returns an error), whose LeaderIndex is the entry's Index; entry conversion: every success return hands back a command, the non-encoded edge sets the no-op type instead of decoding, the command's LeaderIndex points at the entry's Index", "a skipped entry is a gap in the follower's log; a wrong label makes the follower record a wrong leader index")
 	fn := w.Func("regattaserver", "LogServer.Replicate")
 	conv := w.Func("regattaserver", "entryToCommand")
 	if fn == nil || conv == nil {
